@@ -29,6 +29,9 @@ def gen(rng, tier):
     for _ in range(n):
         doc = gen_container(rng, 3, 3, NAMES)
         q = Q.gen_ext_query(rng, doc)
+        if rng.random() < 0.3:
+            from . import c09 as PURE
+            q = {"first": {"fake": False, "segs": [["list", ["filter", PURE.gen_cacheable_logical(rng, rng.randint(1, 2))]]]}, "rest": []}
         if rng.random() < 0.5:
             q["rest"] = q["rest"] + [[rng.choice(["union", "inter"]), {"fake": False, "segs": Q.gen_ext_segs_for_doc(rng, doc, 2)}]
                                      for _ in range(rng.randint(1, 3))]
@@ -81,6 +84,28 @@ def impl(case):
             m = jsonpath.match(text, mk(), filter_context=ctx)
             return ["none"] if m is None else ["some", SX.canon(m.obj)]
         res["pkg.match/" + fname] = attempt(first_pkg)
+    def interleaved():
+        # a result iterator is lazy: the same compiled query is used on another document (values rotated) while it is
+        # half consumed; the values it yields afterwards are still those of ITS document
+        d = deep(doc)
+        if isinstance(d, dict) and d:
+            ks = list(d)
+            other = dict(zip(ks, [deep(d[k]) for k in ks[1:] + ks[:1]]))
+        elif isinstance(d, list) and d:
+            other = [deep(x) for x in reversed(d)] + [1]
+        else:
+            other = {"a": 1}
+        it = iter(c.finditer(d, filter_context=ctx))
+        got = []
+        for m in it:
+            got.append(m.obj)
+            break
+        c.findall(other, filter_context=ctx)
+        c.match(other, filter_context=ctx)
+        list(c.query(other, filter_context=ctx).limit(1).values())
+        got += [m.obj for m in it]
+        return got
+    res["compiled.finditer.interleaved/value"] = _vals(interleaved)
     res["pkg.findall/value"] = _vals(lambda: jsonpath.findall(text, deep(doc), filter_context=ctx))
     res["env.query/value"] = _vals(lambda: list(env.query(text, deep(doc), filter_context=ctx).values()))
     res["pkg.query.first_one/value"] = attempt(lambda: (lambda m: ["none"] if m is None else ["some", SX.canon(m.obj)])(
@@ -108,6 +133,7 @@ def decode(sx, case):
             r["compiled.match/" + fname] = firstv
             r["pkg.match/" + fname] = firstv
         r["pkg.findall/value"] = values
+        r["compiled.finditer.interleaved/value"] = values
         r["env.query/value"] = values
         r["pkg.query.first_one/value"] = firstv
         return r
